@@ -96,7 +96,7 @@ def typed_cases(draw):
                                                    "extend"]),
                                   st.integers(0, 9), tv), min_size=1, max_size=6))
     return {"init": init, "ops": [list(o) for o in ops], "owned": draw(st.booleans()),
-            "ctor": draw(st.sampled_from(["lists", "coordpayloads", "uncompressed"]))}
+            "ctor": draw(st.sampled_from(["lists", "coordpayloads", "uncompressed", "initial"]))}
 
 
 def check_typed(case, rec):
@@ -105,6 +105,11 @@ def check_typed(case, rec):
         f = Fiber([c for c, _ in init], [v for _, v in init], shape=20)
     elif case["ctor"] == "coordpayloads":
         f = Fiber.fromCoordPayloadList([(c, v) for c, v in init], shape=20) if init else Fiber(shape=20)
+    elif case["ctor"] == "initial":
+        # coordinates only, every payload initialised to one value
+        v0 = init[0][1] if init else 1
+        init = [(c, v0) for c, _ in init]
+        f = Fiber([c for c, _ in init], initial=v0, shape=20)
     else:
         nest = [0] * 20
         for c, v in init:
